@@ -18,8 +18,8 @@ macro_rules! ff {
     };
 }
 cross!(ff;
-    [F8x1, F8x2, F8x3, F8x9, F8x17, F16x1, F16x3, F32x1, F32x3, F64x1, F64x2, F64x3, F128x1, F128x2, Fszx1, Fszx2, F32x80, F16x10, F64x1100, F8x0, F64x0];
-    [F8x1, F8x2, F8x3, F8x9, F8x17, F16x1, F16x3, F32x1, F32x3, F64x1, F64x2, F64x3, F128x1, F128x2, Fszx1, Fszx2, F32x80, F16x10, F64x1100, F8x0, F64x0]);
+    [F8x1, F8x2, F8x3, F8x9, F8x17, F16x1, F16x3, F32x1, F32x3, F64x1, F64x2, F64x3, F128x1, F128x2, Fszx1, Fszx2, F32x80, F16x10, F64x1100, F8x0, F64x0, F64x4, F64x5, F64x6, F64x7, F64x8, F128x3];
+    [F8x1, F8x2, F8x3, F8x9, F8x17, F16x1, F16x3, F32x1, F32x3, F64x1, F64x2, F64x3, F128x1, F128x2, Fszx1, Fszx2, F32x80, F16x10, F64x1100, F8x0, F64x0, F64x4, F64x5, F64x6, F64x7, F64x8, F128x3]);
 
 macro_rules! fx {
     ($l:ident, $r:ident) => {
@@ -36,7 +36,7 @@ macro_rules! fx {
     };
 }
 cross!(fx;
-    [F8x1, F8x2, F8x3, F8x9, F8x17, F16x1, F16x3, F32x1, F32x3, F64x1, F64x2, F64x3, F128x1, F128x2, Fszx1, Fszx2, F32x80, F16x10, F64x1100, F8x0, F64x0];
+    [F8x1, F8x2, F8x3, F8x9, F8x17, F16x1, F16x3, F32x1, F32x3, F64x1, F64x2, F64x3, F128x1, F128x2, Fszx1, Fszx2, F32x80, F16x10, F64x1100, F8x0, F64x0, F64x4, F64x5, F64x6, F64x7, F64x8, F128x3];
     [Bvd, Bv]);
 
 macro_rules! xx {
